@@ -50,6 +50,27 @@ theorem C03_plain_dash_is_the_range_operator :
     parse [91, 97, 45, 99, 93] = some { ignoreCase := false, inverted := false, chars := [], ranges := [97, 99], classes := [] } := by
   decide
 
+/-- finding D36, repaired (`fix:` commit in /repo): a Unicode class is no range bound. The text `[0\pL-9]` is, by the
+    front-end grammar (`ClassCharRange ← ClassChar '-' ClassChar`; `\pL` is no `ClassChar`), the character `0`, the class
+    `L`, the character `-` and the character `9`. Before the repair `parse` dropped the class from the rune sequence before
+    looking for ranges and read the RANGE 0-9 (so the class matched `5` and did not match `-`). -/
+theorem C03_D36_dash_after_a_class_is_a_character :
+    parse [91, 48, 92, 112, 76, 45, 57, 93] =    -- `[0\pL-9]`
+      some { ignoreCase := false, inverted := false, chars := [48, 45, 57], ranges := [], classes := [[76]] } := by
+  decide
+
+/-- … the same for a `-` BEFORE a class: `[a-\pLz]` is `a`, `-`, the class `L`, `z` (before the repair: the range a-z) -/
+theorem C03_D36_dash_before_a_class_is_a_character :
+    parse [91, 97, 45, 92, 112, 76, 122, 93] =
+      some { ignoreCase := false, inverted := false, chars := [97, 45, 122], ranges := [], classes := [[76]] } := by
+  decide
+
+/-- … while a complete range next to a class stays a range: `[a-c\p{Lu}x-z]` -/
+theorem C03_range_next_to_a_class_is_a_range :
+    parse [91, 97, 45, 99, 92, 112, 123, 76, 117, 125, 120, 45, 122, 93] =
+      some { ignoreCase := false, inverted := false, chars := [], ranges := [97, 99, 120, 122], classes := [[76, 117]] } := by
+  decide
+
 /-- a bracketed text is never rejected by `parse` (the slicing cannot go out of bounds on what the grammar hands over) -/
 theorem C03_class_parse_total_on_bracketed (ic inv : Bool) (body : List Nat)
     (hhead : ∀ x rest, body = x :: rest → x = 92) :
